@@ -44,7 +44,7 @@ class C23(Monitor):
         if not prios:
             return
         self.probe('priority_frames')
-        if len(s.units) != 1 or (not s.ok and s.trailing >= 9):
+        if not s.exact:
             return
         i, u = prios[0]
         dep, excl, wt = u.prio
